@@ -1,5 +1,4 @@
 SPECIFICATION Spec
 CONSTANT Tier = "quick"
-INVARIANT NoViolation
-INVARIANT EmitCase
+INVARIANT Judge
 CHECK_DEADLOCK FALSE
